@@ -51,7 +51,9 @@ PROPS = {
     },
     "C07": {
         "groups": [
-            {"pkg": "server", "tags": "verif,test", "harness": "^verifH_C07_"},
+            {"pkg": "server", "tags": "verif,test", "harness": "^verifH_C07_(register|write|no_auth)"},
+            {"pkg": "server", "tags": "verif,test", "harness": "^verifH_C07_concurrent", "replay": "symbolic",
+             "replay_note": "the interleaving (a second registration placed at a lock acquisition of the first) is ghost scheduling; a native run cannot place it without instrumenting the code"},
         ],
         "bounds": {"sequences": "one step from any state; register,register,replay,restart,register"},
         "outside": ["validity of the all-zero key under secp256k1 (a curve fact)", "real concurrency below critical-section granularity (registerGCA is one critical section; see C13)"],
@@ -117,6 +119,8 @@ PROPS = {
     "C20": {
         "groups": [
             {"pkg": "glow", "tags": "verif", "harness": "^verifH_C20_"},
+            # acceptance-window comparisons for every 32-bit clock value and timeslot (server side, test clock)
+            {"pkg": "server", "tags": "verif,test", "harness": "^verifH_C01_signed"},
         ],
         "bounds": {"unix time": "genesis-2^63 .. genesis+2^32-1 s", "build": "production constants (tag verif without test)"},
         "outside": ["unix times beyond genesis+2^32-1 s (uint32(time-genesis) wraps)"],
